@@ -1118,10 +1118,18 @@ def op_evolve(w, s):
             cps = PS_ORDER_CONST
             bound = 1e-8 if split_exact else cps * x ** 3 + 1e-8
             key += ":exact" if split_exact else ":order"
+            if not split_exact and _min_schmidt_ratio(w, e) < x:
+                # pre-asymptotic regime (step larger than the smallest Schmidt weight): only the robust O(x^2) local bound holds
+                # (measured 0.023 x^2 at sigma_min/sigma_max = 0.0014, 6.5e-4 x^2 at 0.009, both with ratio 4 per halving)
+                bound = cps * x ** 2 + 1e-8
+                key += ":robust"
         elif method == "ps2" and full and int(m) >= max(src.bond_dims[1:]):
             cps = max(PS_ORDER_CONST, 0.15 * len(src.node_list))
             bound = 1e-8 if split_exact else cps * x ** 3 + 1e-8
             key += ":exact" if split_exact else ":order"
+            if not split_exact and _min_schmidt_ratio(w, e) < x:
+                bound = cps * x ** 2 + 1e-8      # (same pre-asymptotic regime as for the one-site scheme)
+                key += ":robust"
         elif method == "vmf" and full:
             sv_ok = _well_conditioned(w, e)
             # (the ODE integrator has an absolute tolerance on the raw tensors: states of ordinary magnitude only)
